@@ -321,6 +321,54 @@ theorem metadata_kinds_exact (api : Api) (tr : Transports) (h : WF api) :
   simp only [List.map_map, Function.comp_def]
   exact (sortBy_perm _ api.services).map _
 
+/-- the (service, client kind, client class) triples of the metadata — present also for a service that
+declares NO RPC, which has no `Row` at all (`metadata_complete_once` is silent about such a service) -/
+def clientRows (md : Metadata) : List (Str × Str × Str) :=
+  md.services.flatMap fun s => s.clients.map fun c => (s.name, c.kind, c.libraryClient)
+
+def expectedClientRows (api : Api) (tr : Transports) : List (Str × Str × Str) :=
+  api.services.flatMap fun s => (clientKinds tr s).map fun kc => (s.name, kc.1, kc.2)
+
+/-- **Every service — with or without RPCs — is listed once per implied client kind, with its client class**:
+as a multiset the (service, kind, class) triples of the metadata are exactly the expected ones.  No hypothesis on
+`s.methods`: a service `service Heartbeat {}` has its entry, its kinds and its `libraryClient`s. -/
+theorem metadata_clients_complete_once (api : Api) (tr : Transports) (h : WF api) :
+    (clientRows (gapicMetadata api tr)).Perm (expectedClientRows api tr) := by
+  unfold clientRows expectedClientRows
+  rw [metadata_services_simple api tr h]
+  unfold serviceEntries
+  rw [List.flatMap_map]
+  refine (List.Perm.flatMap_right _ (sortBy_perm _ api.services)).trans ?_
+  apply perm_flatMap_left
+  intro s _
+  simp only [clientEntries, List.map_map, Function.comp_def]
+  exact List.Perm.refl _
+
+/-- **From the emitted package towards the metadata**: every client class the library package exports (also the
+classes of a service without RPCs) is the `libraryClient` of a listed (service, kind).  Hypothesis: at least one of
+grpc / rest is requested (`Options.build` guarantees it). -/
+theorem emitted_classes_listed (api : Api) (tr : Transports) (h : WF api) (htr : sGrpc ∈ tr ∨ sRest ∈ tr)
+    (c : Str × List Str) (hc : c ∈ emittedClasses api tr) :
+    ∃ r ∈ clientRows (gapicMetadata api tr), r.2.2 = c.1 := by
+  simp only [emittedClasses, List.mem_flatMap] at hc
+  obtain ⟨s, hs, hc⟩ := hc
+  have hk : ∃ kc ∈ clientKinds tr s, kc.2 = c.1 := by
+    rw [List.mem_cons] at hc
+    rcases hc with rfl | hc
+    · rcases htr with hg | hr
+      · exact ⟨(sGrpc, clientName s), by simp [clientKinds, hg], rfl⟩
+      · exact ⟨(sRest, clientName s), by simp [clientKinds, hr], rfl⟩
+    · by_cases hg : sGrpc ∈ tr
+      · simp [hg] at hc
+        subst hc
+        exact ⟨(sGrpcAsync, asyncClientName s), by simp [clientKinds, hg], rfl⟩
+      · simp [hg] at hc
+  obtain ⟨kc, hkc, hkn⟩ := hk
+  refine ⟨(s.name, kc.1, kc.2), ?_, hkn⟩
+  apply (metadata_clients_complete_once api tr h).mem_iff.mpr
+  simp only [expectedClientRows, List.mem_flatMap, List.mem_map]
+  exact ⟨s, hs, kc, hkc, rfl⟩
+
 /-- **Proto package and library package are recorded** (`".".join(namespace + (versioned module,))`). -/
 theorem packages_recorded (api : Api) (tr : Transports) :
     (gapicMetadata api tr).protoPackage = api.protoPackage ∧
@@ -499,6 +547,19 @@ example : fixupTable apiEx =
     [("get_book".toList, ["name".toList, "parent".toList, "filter".toList, "class_".toList]),
      ("import".toList, ["in_".toList, "from_".toList]),
      ("return".toList, [])] := by decide
+
+/-- a service that declares no RPC, FIRST by name, next to ordinary ones -/
+def sHeartbeat : ServiceS := ⟨"Heartbeat".toList, []⟩
+def apiEmptySvc : Api := ⟨"acme.lib.v1".toList, ["acme".toList], "lib_v1".toList, [sLibrary, sHeartbeat]⟩
+example : WF apiEmptySvc := by decide
+example : sGrpc ∈ [sGrpc, sRest] ∨ sRest ∈ [sGrpc, sRest] := by decide
+/-- no `Row` mentions it … -/
+example : ((gapicMetadata apiEmptySvc [sGrpc, sRest]).rows.filter fun r => r.service = "Heartbeat".toList) = [] := by decide
+/-- … but it is listed, once per kind, with its client classes -/
+example : (clientRows (gapicMetadata apiEmptySvc [sGrpc, sRest])).filter (fun r => r.1 = "Heartbeat".toList) =
+    [("Heartbeat".toList, sGrpc, "HeartbeatClient".toList), ("Heartbeat".toList, sGrpcAsync, "HeartbeatAsyncClient".toList),
+     ("Heartbeat".toList, sRest, "HeartbeatClient".toList)] := by decide
+example : ((gapicMetadata apiEmptySvc [sRest]).services.map (·.name)) = ["Heartbeat".toList, "Library".toList] := by decide
 
 def mGetBook : MethodS := ⟨"GetBook".toList, false, true, [fName], false⟩
 def mGetbook : MethodS := ⟨"Getbook".toList, false, true, [⟨"isbn".toList, false, 7⟩], false⟩
